@@ -595,6 +595,8 @@ def run(ctx):
         if len(ctx.violations) > 5:
             return
     laws(ctx)
+    if not any(f for _, f in ctx.violations):
+        lazy_stream(ctx)
 
 
 def _show(ans, p, kind):
@@ -819,6 +821,43 @@ def stream_bigp(ctx, kf_ovf):
     ctx.extra["bigp_failures_attributed_to_known_overflow"] = attributed
 
 
+def lazy_eval(c):
+    """the norms of a landscape built with compute=False (first use = the norm) against the eagerly built one"""
+    ex, ap, _ = _mods()
+    D = lambda: [np.array(c["dgm"], dtype=float).reshape(-1, 2)]
+    out = {}
+    if c["cls"] == "exact":
+        mk = lambda lazy: quiet(ex.PersLandscapeExact, dgms=D(), hom_deg=0, **({"compute": False} if lazy else {}))
+    else:
+        mk = lambda lazy: quiet(ap.PersLandscapeApprox, dgms=D(), hom_deg=0, start=c["start"], stop=c["stop"], num_steps=c["steps"],
+                                **({"compute": False} if lazy else {}))
+    for name, f in (("p_norm(%r)" % c["p"], lambda L: L.p_norm(c["p"])), ("sup_norm()", lambda L: L.sup_norm())):
+        a = canon(call(lambda: quiet(f, mk(False))))
+        b = canon(call(lambda: quiet(f, mk(True))))
+        out[name] = (a, b)
+    bad = [k for k, (a, b) in out.items() if a != b and not (isinstance(a, float) and isinstance(b, float) and a != a and b != b)]
+    return not bad, out
+
+
+def lazy_stream(ctx):
+    """[T] `all exact and grid landscapes`: also those built with compute=False, whose first use is the norm itself"""
+    r = ctx.rng
+    for _ in range(ctx.n(150, 2000)):
+        mode, scale, dgms = gen_family(ctx, 1)
+        d = dgms[0]
+        c = {"kind": "lazy", "cls": r.choice(["exact", "grid"]), "dgm": d, "p": r.choice([1, 2, 3, 2.5, 7])}
+        if c["cls"] == "grid":
+            lo, hi = min(b[0] for b in d), max(b[1] for b in d)
+            if not (lo < hi):
+                continue
+            c.update(start=lo, stop=hi, steps=r.choice([5, 11, 33]))
+        ok, out = lazy_eval(c)
+        ctx.test("lazy_landscape_norms_equal_eager", ok)
+        if not ok:
+            ctx.violation("the norm of a landscape built with compute=False differs from the eagerly computed one: %r" % out, c, found_input=True)
+            return
+
+
 def laws(ctx):
     r = ctx.rng
     kf_ovf, kf_stab = known_replays(ctx)
@@ -900,6 +939,10 @@ def replay(ctx, rep):
     c = rep["case"]
     ex, ap, aux = _mods()
     kind = c.get("kind")
+    if kind == "lazy":
+        ok, out = lazy_eval(c)
+        print("(eager, compute=False):", out)
+        return ok
     if kind == "pnorm":
         v = fl(quiet(aux._p_norm, c["p"], c["cps"]))
         bad, o = oracle_disagrees(v, c["p"], c["cps"])
